@@ -577,7 +577,7 @@ impl<M: Math, T: Transformation<M>> Hamiltonian<M> for TransformedHamiltonian<M,
                 energy_error: None,
             };
             #[cfg(nuts_rs_verif)]
-            verif_tap_failed(start.index_in_trajectory() + sign);
+            verif_tap_failed(start.index_in_trajectory() + sign, epsilon);
             collector.register_leapfrog(math, start, &out, Some(&div_info));
             return LeapfrogResult::Divergence(div_info);
         }
@@ -611,13 +611,13 @@ impl<M: Math, T: Transformation<M>> Hamiltonian<M> for TransformedHamiltonian<M,
                 energy_error: Some(energy_error),
             };
             #[cfg(nuts_rs_verif)]
-            verif_tap(math, out.point(), false, true);
+            verif_tap(math, out.point(), false, true, epsilon);
             collector.register_leapfrog(math, start, &out, Some(&divergence_info));
             return LeapfrogResult::Divergence(divergence_info);
         }
 
         #[cfg(nuts_rs_verif)]
-        verif_tap(math, out.point(), false, false);
+        verif_tap(math, out.point(), false, false, epsilon);
         collector.register_leapfrog(math, start, &out, None);
 
         LeapfrogResult::Ok(out)
@@ -743,7 +743,7 @@ impl<M: Math, T: Transformation<M>> Hamiltonian<M> for TransformedHamiltonian<M,
         point.index_in_trajectory = 0;
         point.initial_energy = point.energy();
         #[cfg(nuts_rs_verif)]
-        verif_tap(math, point, true, false);
+        verif_tap(math, point, true, false, 0.0);
         Ok(())
     }
 
@@ -840,7 +840,7 @@ impl<M: Math, T: Transformation<M>> Hamiltonian<M> for TransformedHamiltonian<M,
 
 /// Verification seam (off by default): report a state to the trajectory tap.
 #[cfg(nuts_rs_verif)]
-fn verif_tap<M: Math>(math: &mut M, point: &TransformedPoint<M>, start: bool, divergent: bool) {
+fn verif_tap<M: Math>(math: &mut M, point: &TransformedPoint<M>, start: bool, divergent: bool, epsilon: f64) {
     if !crate::verif::tap_enabled() {
         return;
     }
@@ -860,11 +860,12 @@ fn verif_tap<M: Math>(math: &mut M, point: &TransformedPoint<M>, start: bool, di
         transform_id: point.transform_id,
         divergent,
         failed: false,
+        epsilon,
     });
 }
 
 #[cfg(nuts_rs_verif)]
-fn verif_tap_failed(index: i64) {
+fn verif_tap_failed(index: i64, epsilon: f64) {
     if !crate::verif::tap_enabled() {
         return;
     }
@@ -884,5 +885,6 @@ fn verif_tap_failed(index: i64) {
         transform_id: -1,
         divergent: true,
         failed: true,
+        epsilon,
     });
 }
